@@ -279,6 +279,28 @@ def run(c):
             c.violation("the SQL text and the structured query disagree (%s rendering)%s" % (st, ": " + str(err)[:120] if err else ""),
                         {"kind": "case", "style": st, "sql": text, "data": data, "query": q, "sql_path": {"columns": got_cols, "rows": [list(map(str, r)) for r in (got or [])[:8]]},
                          "structured": {"columns": want_cols, "rows": [list(map(str, r)) for r in want[:8]]}})
+        # the definitions are edited in place after the statements above were answered (a metric's expression and aggregation; a dimension's
+        # expression): the SAME text must now mean the edited definitions, as the structured query does
+        if i % 3 == 0:
+            om = L.graph.models["orders"]
+            om.get_metric("revenue").sql = "amount + 1"
+            om.get_metric("n").agg, om.get_metric("n").sql = "count_distinct", "channel"
+            om.get_metric("avg_amount").agg = "max"
+            om.get_dimension("status").sql = "upper(status)"
+            L.graph.models["customers"].get_dimension("region").sql = "coalesce(region, tier)"
+            try:
+                want_cols2, want_rows2 = structured_run(L, q)
+                for st in ("qualified", "cte"):
+                    res = L.sql(sql_text(q, st))
+                    got_cols = [d[0] for d in res.description]
+                    rename = {a: f for m, f, a in q["fields"] if a}
+                    stats["after_edit"] = stats.get("after_edit", 0) + 1
+                    if aligned(got_cols, dbutil.canon_rows(res.fetchall(), False), rename, False) != aligned(want_cols2, dbutil.canon_rows(want_rows2, False), {}, False):
+                        c.violation("after a metric / dimension definition was edited in place, the same SQL text still answers with the old definition (the structured query uses the new one)",
+                                    {"kind": "edited", "style": st, "sql": sql_text(q, st), "data": data, "query": q, "structured_after_edit": [list(map(str, r)) for r in want_rows2[:8]]})
+                        break
+            except Exception as e:
+                c.violation("query after an in-place edit of the definitions fails: %s" % str(e)[:140], {"kind": "edited", "data": data, "query": q})
         if len(c.samples) < 3 and len(want_rows) > 1:
             c.samples.append({"structured": {"fields": q["fields"], "filters": q["filters"], "order": q["order"], "limit": q["limit"]}, "renderings": [sql_text(q, st) for st in styles_for(q)][:3], "rows": len(want_rows)})
     # rejection / passthrough
